@@ -53,25 +53,25 @@ package flyt
 //@   ghost postAct Action = ""; postErr error = nil; lastEnd int = now
 //@   ghost nBatch int = 0; bAct Action = ""; bErr error = nil
 //@   on call runBatch(c, n, s) returns (a, e)
-//@     requires [C04,C06,C10,C18] nBatch == 0 && ph == 0 && c == ctx && s == shared && isBatch(node)
-//@     requires [C04,C06,C10,C18] n == node || (isType(node, *BatchNodeBuilder) && n == box(node.(*BatchNodeBuilder).BatchNode, *BatchNode))
+//@     requires [C03,C04,C06,C07,C08,C09,C10,C11,C18] nBatch == 0 && ph == 0 && c == ctx && s == shared && isBatch(node)
+//@     requires [C03,C04,C06,C07,C08,C09,C10,C11,C18] n == node || (isType(node, *BatchNodeBuilder) && n == box(node.(*BatchNodeBuilder).BatchNode, *BatchNode))
 //@     effect nBatch = 1; bAct = a; bErr = e
 //@   on call Node.Prep(n, c, s) returns (v, e)
 //@     requires [C01] n == node && c == ctx && s == shared && ph == 0
 //@     requires [C05] !cancelled@entry
 //@     effect ph = 1; pv = v; perr = e
 //@   on call Node.Exec(n, c, p) returns (v, e)
-//@     requires [C01] n == node && c == ctx && (ph == 1 || ph == 2) && perr == nil && p == pv
+//@     requires [C01,C17] n == node && c == ctx && (ph == 1 || ph == 2) && perr == nil && p == pv
 //@     requires [C02] nExec < budget(node) && (nExec > 0 ==> attErr != nil)
 //@     requires [C05] !cancelled
 //@     requires [C20] nExec > 0 && waitOf(node) > 0 ==> now >= lastEnd + waitOf(node)
 //@     effect ph = 2; nExec++; lastRes = v; lastErr = e; attErr = e; lastEnd = now
 //@   on call FallbackNode.ExecFallback(n, p, e0) returns (v, e)
-//@     requires [C01] n == node && ph == 2 && lastErr != nil && nFb == 0
+//@     requires [C01,C17] n == node && ph == 2 && lastErr != nil && nFb == 0
 //@     requires [C02] nExec == budget(node) && attErr != nil && p == pv && e0 == attErr
 //@     effect ph = 3; nFb = 1; lastRes = v; lastErr = e
 //@   on call Node.Post(n, c, s, p, r) returns (a, e)
-//@     requires [C01] n == node && c == ctx && (ph == 2 || ph == 3) && lastErr == nil && s == shared && p == pv && r == lastRes && nPost == 0
+//@     requires [C01,C17] n == node && c == ctx && (ph == 2 || ph == 3) && lastErr == nil && s == shared && p == pv && r == lastRes && nPost == 0
 //@     effect ph = 4; nPost = 1; postAct = a; postErr = e
 //@   loop 1 invariant (ph == 1 || ph == 2) && ((ph == 1) <==> (nExec == 0)) && nExec >= 0
 //@   loop 1 invariant ph == 2 ==> lastErr != nil
@@ -81,10 +81,10 @@ package flyt
 //@   loop 1 candidate !cancelled
 //@   loop 1 candidate ph == 1 ==> !cancelled
 //@   loop 1 decreases [C02] budget(node) - nExec
-//@   ensures [C04,C06,C10,C18] isBatch(node) ==> nBatch == 1 && act == bAct && err == bErr && ph == 0
-//@   ensures [C01,C10,C18] !isBatch(node) ==> (err == nil && act != "") || (err != nil && act == "")
+//@   ensures [C04,C06,C10,C18|C03,C07,C08,C09,C11] isBatch(node) ==> nBatch == 1 && act == bAct && err == bErr && ph == 0
+//@   ensures [C01,C10,C18|C03] !isBatch(node) ==> (err == nil && act != "") || (err != nil && act == "")
 //@   ensures [C01] !isBatch(node) ==> (err == nil <==> ph == 4 && postErr == nil)
-//@   ensures [C01,C18] !isBatch(node) && err == nil ==> act == norm(postAct)
+//@   ensures [C01,C18|C03,C10] !isBatch(node) && err == nil ==> act == norm(postAct)
 //@   ensures [C01] !isBatch(node) ==> !((ph == 2 || ph == 3) && lastErr == nil)
 //@   ensures [C02] !isBatch(node) && ph >= 2 && !sawCancel ==> (nFb == 1 <==> hasFallback(node) && attErr != nil && nExec == budget(node))
 //@   ensures [C02] !isBatch(node) && ph >= 2 && !sawCancel && attErr == nil ==> nFb == 0 && lastErr == nil
@@ -93,6 +93,8 @@ package flyt
 //@   ensures [C04] !isBatch(node) && ph == 4 && postErr != nil ==> err != nil && Is(err, postErr)
 //@   ensures [C05,C20] !isBatch(node) && sawCancel ==> err != nil && Is(err, ctxErr(ctx))
 //@   ensures [C05] !isBatch(node) && cancelled@entry ==> callbacks == callbacks@entry && err != nil && Is(err, ctxErr(ctx))
+// a run that ends after a failed attempt without having seen a cancellation did so because the node has no fallback to try
+//@   ensures [C01] !isBatch(node) && ph == 2 && !sawCancel ==> !hasFallback(node)
 
 
 // ---------------------------------------------------------------------------
@@ -107,11 +109,12 @@ package flyt
 //@ func NewFlow(start) (f)
 //@   requires okNode(start)
 //@   havoc user
-//@   ensures [C03] fresh(f) && f.start == start && flowRep(f)
+//@   ensures [C03|C10] fresh(f) && f.start == start && flowRep(f)
 //@   ensures [C19] f.BaseNode != nil && baseDefaults(f.BaseNode)
-//@   ensures [C03] forall n Node :: !has(f.transitions, n)
+//@   ensures [C03|C10] forall n Node :: !has(f.transitions, n)
 
 //@ func (*Flow).Connect(f, from, action, to) (r)
+//@   widen [C10]
 //@   requires f != nil && flowRep(f) && okNode(from) && okNode(to)
 //@   assigns contents(f.transitions), contents(f.transitions[from])
 //@   havoc alloc
@@ -169,30 +172,41 @@ package flyt
 //@ spec func wrapAny(x any) Result = isType(x, Result) ? x.(Result) : Result{x, nil}
 
 //@ func NewResult(v) (r)
+//@   also [C01,C04,C06,C07,C09,C11,C15,C16,C17]
 //@   ensures r == Result{v, nil}
 //@ func NewErrorResult(e) (r)
+//@   also [C01,C04,C06,C07,C09,C11,C15,C16,C17]
 //@   ensures r == Result{nil, e}
 //@ func R(v) (r)
+//@   also [C01,C04,C06,C07,C09,C11,C15,C16,C17]
 //@   ensures r == Result{v, nil}
 //@ func Result.Value(r) (v)
+//@   also [C01,C04,C06,C07,C09,C11,C15,C16,C17]
 //@   ensures v == valueOf(r)
 //@ func Result.IsError(r) (b)
+//@   also [C01,C04,C06,C07,C09,C11,C15,C16,C17]
 //@   ensures b == (r.err != nil)
 //@ func Result.Error(r) (e)
+//@   also [C01,C04,C06,C07,C09,C11,C15,C16,C17]
 //@   ensures e == r.err
 //@ func Result.IsNil(r) (b)
+//@   also [C01,C04,C06,C07,C09,C11,C15,C16,C17]
 //@   ensures b == (r.value == nil)
 
 //@ func (*BaseNode).GetMaxRetries(n) (r)
+//@   also [C02]
 //@   requires n != nil
 //@   ensures r == n.maxRetries
 //@ func (*BaseNode).GetWait(n) (r)
+//@   also [C20]
 //@   requires n != nil
 //@   ensures r == n.wait
 //@ func (*BaseNode).GetBatchConcurrency(n) (r)
+//@   also [C08]
 //@   requires n != nil
 //@   ensures r == n.batchConcurrency
 //@ func (*BaseNode).GetBatchErrorHandling(n) (r)
+//@   widen [C07]
 //@   requires n != nil
 //@   ensures [C09,C19] r == (n.batchErrorHandling == "" ? "continue" : n.batchErrorHandling)
 //@ func (*BaseNode).Prep(n, ctx, shared) (v, err)
@@ -211,6 +225,7 @@ package flyt
 // documented defaults: one attempt, no wait, sequential batches, continue on errors ("" reads as "continue")
 //@ spec func baseDefaults(n *BaseNode) bool = n.maxRetries == 1 && n.wait == 0 && n.batchConcurrency == 0 && n.batchErrorHandling == ""
 //@ func NewBaseNode(opts) (n)
+//@   widen [C02,C07,C08,C09,C17,C20]
 //@   requires forall i int :: 0 <= i && i < len(opts) ==> opts[i] != nil
 //@   havoc user
 //@   ghost k int = 0
@@ -224,114 +239,140 @@ package flyt
 //@   ensures [C19] len(opts) == 0 ==> baseDefaults(n)
 
 //@ func WithMaxRetries+call(retries, n) ()
+//@   widen [C02]
 //@   requires n != nil
 //@   assigns [C19] n.maxRetries
 //@   ensures [C19] n.maxRetries == retries
 //@ func WithWait+call(wait, n) ()
+//@   widen [C20]
 //@   requires n != nil
 //@   assigns [C19] n.wait
 //@   ensures [C19] n.wait == wait
 //@ func WithBatchConcurrency+call(c, n) ()
+//@   widen [C08]
 //@   requires n != nil
 //@   assigns [C19] n.batchConcurrency
 //@   ensures [C19] n.batchConcurrency == c
 //@ func WithBatchErrorHandling+call(cont, n) ()
+//@   widen [C07,C09]
 //@   requires n != nil
 //@   assigns [C19] n.batchErrorHandling
 //@   ensures [C19] n.batchErrorHandling == (cont ? "continue" : "stop")
 
 //@ func (*NodeBuilder).WithMaxRetries(b, retries) (r)
+//@   widen [C02]
 //@   requires b != nil && b.CustomNode != nil && b.CustomNode.BaseNode != nil
 //@   assigns [C19] b.CustomNode.BaseNode.maxRetries
 //@   ensures [C19] r == b && b.CustomNode.BaseNode.maxRetries == retries
 //@ func (*NodeBuilder).WithWait(b, wait) (r)
+//@   widen [C20]
 //@   requires b != nil && b.CustomNode != nil && b.CustomNode.BaseNode != nil
 //@   assigns [C19] b.CustomNode.BaseNode.wait
 //@   ensures [C19] r == b && b.CustomNode.BaseNode.wait == wait
 //@ func (*NodeBuilder).WithBatchConcurrency(b, c) (r)
+//@   widen [C08]
 //@   requires b != nil && b.CustomNode != nil && b.CustomNode.BaseNode != nil
 //@   assigns [C19] b.CustomNode.BaseNode.batchConcurrency
 //@   ensures [C19] r == b && b.CustomNode.BaseNode.batchConcurrency == c
 //@ func (*NodeBuilder).WithBatchErrorHandling(b, cont) (r)
+//@   widen [C07,C09]
 //@   requires b != nil && b.CustomNode != nil && b.CustomNode.BaseNode != nil
 //@   assigns [C19] b.CustomNode.BaseNode.batchErrorHandling
 //@   ensures [C19] r == b && b.CustomNode.BaseNode.batchErrorHandling == (cont ? "continue" : "stop")
 
 //@ func (*BatchNodeBuilder).WithMaxRetries(b, retries) (r)
+//@   widen [C02]
 //@   requires b != nil && b.BatchNode != nil && b.BatchNode.CustomNode != nil && b.BatchNode.CustomNode.BaseNode != nil
 //@   assigns [C19] b.BatchNode.CustomNode.BaseNode.maxRetries
 //@   ensures [C19] r == b && b.BatchNode.CustomNode.BaseNode.maxRetries == retries
 //@ func (*BatchNodeBuilder).WithWait(b, wait) (r)
+//@   widen [C20]
 //@   requires b != nil && b.BatchNode != nil && b.BatchNode.CustomNode != nil && b.BatchNode.CustomNode.BaseNode != nil
 //@   assigns [C19] b.BatchNode.CustomNode.BaseNode.wait
 //@   ensures [C19] r == b && b.BatchNode.CustomNode.BaseNode.wait == wait
 //@ func (*BatchNodeBuilder).WithBatchConcurrency(b, c) (r)
+//@   widen [C08]
 //@   requires b != nil && b.BatchNode != nil && b.BatchNode.CustomNode != nil && b.BatchNode.CustomNode.BaseNode != nil
 //@   assigns [C19] b.BatchNode.CustomNode.BaseNode.batchConcurrency
 //@   ensures [C19] r == b && b.BatchNode.CustomNode.BaseNode.batchConcurrency == c
 //@ func (*BatchNodeBuilder).WithBatchErrorHandling(b, cont) (r)
+//@   widen [C07,C09]
 //@   requires b != nil && b.BatchNode != nil && b.BatchNode.CustomNode != nil && b.BatchNode.CustomNode.BaseNode != nil
 //@   assigns [C19] b.BatchNode.CustomNode.BaseNode.batchErrorHandling
 //@   ensures [C19] r == b && b.BatchNode.CustomNode.BaseNode.batchErrorHandling == (cont ? "continue" : "stop")
 
 // function settings: Result style stores the function itself
 //@ func WithPrepFunc+apply(fn, n) ()
+//@   widen [C17]
 //@   requires n != nil
 //@   assigns [C19] n.prepFunc
 //@   ensures [C19] n.prepFunc == fn
 //@ func WithExecFunc+apply(fn, n) ()
+//@   widen [C17]
 //@   requires n != nil
 //@   assigns [C19] n.execFunc
 //@   ensures [C19] n.execFunc == fn
 //@ func WithPostFunc+apply(fn, n) ()
+//@   widen [C17]
 //@   requires n != nil
 //@   assigns [C19] n.postFunc
 //@   ensures [C19] n.postFunc == fn
 //@ func WithExecFallbackFunc+apply(fn, n) ()
+//@   widen [C17]
 //@   requires n != nil
 //@   assigns [C19] n.execFallbackFunc
 //@   ensures [C19] n.execFallbackFunc == fn
 //@ func (*NodeBuilder).WithPrepFunc(b, fn) (r)
+//@   widen [C17]
 //@   requires b != nil && b.CustomNode != nil
 //@   assigns [C19] b.CustomNode.prepFunc
 //@   ensures [C19] r == b && b.CustomNode.prepFunc == fn
 //@ func (*NodeBuilder).WithExecFunc(b, fn) (r)
+//@   widen [C17]
 //@   requires b != nil && b.CustomNode != nil
 //@   assigns [C19] b.CustomNode.execFunc
 //@   ensures [C19] r == b && b.CustomNode.execFunc == fn
 //@ func (*NodeBuilder).WithPostFunc(b, fn) (r)
+//@   widen [C17]
 //@   requires b != nil && b.CustomNode != nil
 //@   assigns [C19] b.CustomNode.postFunc
 //@   ensures [C19] r == b && b.CustomNode.postFunc == fn
 //@ func (*NodeBuilder).WithExecFallbackFunc(b, fn) (r)
+//@   widen [C17]
 //@   requires b != nil && b.CustomNode != nil
 //@   assigns [C19] b.CustomNode.execFallbackFunc
 //@   ensures [C19] r == b && b.CustomNode.execFallbackFunc == fn
 
 // function settings: Any style installs the adapter closure bound to the given function
 //@ func WithPrepFuncAny+apply(fn, n) ()
+//@   widen [C17]
 //@   requires n != nil
 //@   assigns [C19] n.prepFunc
 //@   ensures [C17,C19] isClosure(n.prepFunc, "WithPrepFuncAny$1$1") && *binding(n.prepFunc, "WithPrepFuncAny$1$1", 0) == fn
 //@ func WithExecFuncAny+apply(fn, n) ()
+//@   widen [C17]
 //@   requires n != nil
 //@   assigns [C19] n.execFunc
 //@   ensures [C17,C19] isClosure(n.execFunc, "WithExecFuncAny$1$1") && *binding(n.execFunc, "WithExecFuncAny$1$1", 0) == fn
 //@ func WithPostFuncAny+apply(fn, n) ()
+//@   widen [C17]
 //@   requires n != nil
 //@   assigns [C19] n.postFunc
 //@   ensures [C17,C19] isClosure(n.postFunc, "WithPostFuncAny$1$1") && *binding(n.postFunc, "WithPostFuncAny$1$1", 0) == fn
 //@ func (*NodeBuilder).WithPrepFuncAny(b, fn) (r)
+//@   widen [C17]
 //@   requires b != nil && b.CustomNode != nil
 //@   assigns [C19] b.CustomNode.prepFunc
 //@   havoc alloc
 //@   ensures [C17,C19] r == b && isClosure(b.CustomNode.prepFunc, "(*NodeBuilder).WithPrepFuncAny$1") && *binding(b.CustomNode.prepFunc, "(*NodeBuilder).WithPrepFuncAny$1", 0) == fn
 //@ func (*NodeBuilder).WithExecFuncAny(b, fn) (r)
+//@   widen [C17]
 //@   requires b != nil && b.CustomNode != nil
 //@   assigns [C19] b.CustomNode.execFunc
 //@   havoc alloc
 //@   ensures [C17,C19] r == b && isClosure(b.CustomNode.execFunc, "(*NodeBuilder).WithExecFuncAny$1") && *binding(b.CustomNode.execFunc, "(*NodeBuilder).WithExecFuncAny$1", 0) == fn
 //@ func (*NodeBuilder).WithPostFuncAny(b, fn) (r)
+//@   widen [C17]
 //@   requires b != nil && b.CustomNode != nil
 //@   assigns [C19] b.CustomNode.postFunc
 //@   havoc alloc
@@ -342,6 +383,7 @@ package flyt
 // ---------------------------------------------------------------------------
 
 //@ func (*CustomNode).Prep(n, ctx, shared) (v, err)
+//@   widen [C01,C02,C04,C06,C07,C09,C17]
 //@   requires n != nil && n.BaseNode != nil
 //@   havoc user
 //@   ghost calls int = 0; ur Result = Result{nil, nil}; ue error = nil
@@ -355,6 +397,7 @@ package flyt
 //@   ensures [C04] calls == 1 && ue != nil ==> err == ue && v == nil
 
 //@ func (*CustomNode).Exec(n, ctx, prepResult) (v, err)
+//@   widen [C01,C02,C04,C06,C07,C09,C17]
 //@   requires n != nil && n.BaseNode != nil
 //@   havoc user
 //@   ghost calls int = 0; ur Result = Result{nil, nil}; ue error = nil
@@ -369,6 +412,7 @@ package flyt
 //@   ensures [C17] calls == 1 && ue == nil && ur.err == nil ==> v == ur.value
 
 //@ func (*CustomNode).Post(n, ctx, shared, prepResult, execResult) (a, err)
+//@   widen [C01,C02,C04,C06,C07,C09,C17]
 //@   requires n != nil && n.BaseNode != nil
 //@   havoc user
 //@   ghost calls int = 0; ua Action = ""; ue error = nil
@@ -382,6 +426,7 @@ package flyt
 //@   ensures [C01] old(n.postFunc) == nil ==> calls == 0 && a == DefaultAction && err == nil
 
 //@ func (*CustomNode).ExecFallback(n, prepResult, e0) (v, err)
+//@   widen [C01,C02,C04,C06,C07,C09,C17]
 //@   requires n != nil && n.BaseNode != nil && e0 != nil
 //@   havoc user
 //@   ghost calls int = 0; uv any = nil; ue error = nil
@@ -395,6 +440,7 @@ package flyt
 
 // NodeBuilder: pure delegation to the embedded CustomNode / BaseNode
 //@ func (*NodeBuilder).Prep(b, ctx, shared) (v, err)
+//@   widen [C01,C02,C04,C06,C07,C09,C17]
 //@   requires b != nil && b.CustomNode != nil && b.CustomNode.BaseNode != nil
 //@   havoc user
 //@   ghost calls int = 0; dv any = nil; de error = nil
@@ -403,6 +449,7 @@ package flyt
 //@     effect calls = 1; dv = rv; de = re
 //@   ensures [C01,C04,C17] calls == 1 && v == dv && err == de
 //@ func (*NodeBuilder).Exec(b, ctx, p) (v, err)
+//@   widen [C01,C02,C04,C06,C07,C09,C17]
 //@   requires b != nil && b.CustomNode != nil && b.CustomNode.BaseNode != nil
 //@   havoc user
 //@   ghost calls int = 0; dv any = nil; de error = nil
@@ -411,6 +458,7 @@ package flyt
 //@     effect calls = 1; dv = rv; de = re
 //@   ensures [C01,C04,C17] calls == 1 && v == dv && err == de
 //@ func (*NodeBuilder).Post(b, ctx, shared, p, r) (a, err)
+//@   widen [C01,C02,C04,C06,C07,C09,C17]
 //@   requires b != nil && b.CustomNode != nil && b.CustomNode.BaseNode != nil
 //@   havoc user
 //@   ghost calls int = 0; da Action = ""; de error = nil
@@ -419,6 +467,7 @@ package flyt
 //@     effect calls = 1; da = ra; de = re
 //@   ensures [C01,C04,C17] calls == 1 && a == da && err == de
 //@ func (*NodeBuilder).ExecFallback(b, p, e0) (v, err)
+//@   widen [C01,C02,C04,C06,C07,C09,C17]
 //@   requires b != nil && b.CustomNode != nil && b.CustomNode.BaseNode != nil && e0 != nil
 //@   havoc user
 //@   ghost calls int = 0; dv any = nil; de error = nil
@@ -427,14 +476,17 @@ package flyt
 //@     effect calls = 1; dv = rv; de = re
 //@   ensures [C01,C02,C04] calls == 1 && v == dv && err == de
 //@ func (*NodeBuilder).GetMaxRetries(b) (r)
+//@   also [C02]
 //@   requires b != nil && b.CustomNode != nil && b.CustomNode.BaseNode != nil
 //@   ensures [C02,C19] r == b.CustomNode.BaseNode.maxRetries
 //@ func (*NodeBuilder).GetWait(b) (r)
+//@   also [C20]
 //@   requires b != nil && b.CustomNode != nil && b.CustomNode.BaseNode != nil
 //@   ensures [C20,C19] r == b.CustomNode.BaseNode.wait
 
 // Any-style adapters, option form and builder form: identical contracts (C17)
 //@ func WithPrepFuncAny$1$1(ctx, shared) (r, err)
+//@   widen [C01,C02,C04,C06,C07,C09,C17]
 //@   freevars (fn *func(context.Context, *SharedStore) (any, error))
 //@   requires *fn != nil
 //@   havoc user
@@ -444,6 +496,7 @@ package flyt
 //@     effect calls = 1; uv = v; ue = e
 //@   ensures [C17] calls == 1 && (ue != nil ==> err == ue) && (ue == nil ==> err == nil && r == Result{uv, nil})
 //@ func (*NodeBuilder).WithPrepFuncAny$1(ctx, shared) (r, err)
+//@   widen [C01,C02,C04,C06,C07,C09,C17]
 //@   freevars (fn *func(context.Context, *SharedStore) (any, error))
 //@   requires *fn != nil
 //@   havoc user
@@ -453,6 +506,7 @@ package flyt
 //@     effect calls = 1; uv = v; ue = e
 //@   ensures [C17] calls == 1 && (ue != nil ==> err == ue) && (ue == nil ==> err == nil && r == Result{uv, nil})
 //@ func WithExecFuncAny$1$1(ctx, prepResult) (r, err)
+//@   widen [C01,C02,C04,C06,C07,C09,C17]
 //@   freevars (fn *func(context.Context, any) (any, error))
 //@   requires *fn != nil
 //@   havoc user
@@ -462,6 +516,7 @@ package flyt
 //@     effect calls = 1; uv = v; ue = e
 //@   ensures [C17] calls == 1 && (ue != nil ==> err == ue) && (ue == nil ==> err == nil && r == Result{uv, nil})
 //@ func (*NodeBuilder).WithExecFuncAny$1(ctx, prepResult) (r, err)
+//@   widen [C01,C02,C04,C06,C07,C09,C17]
 //@   freevars (fn *func(context.Context, any) (any, error))
 //@   requires *fn != nil
 //@   havoc user
@@ -471,6 +526,7 @@ package flyt
 //@     effect calls = 1; uv = v; ue = e
 //@   ensures [C17] calls == 1 && (ue != nil ==> err == ue) && (ue == nil ==> err == nil && r == Result{uv, nil})
 //@ func (*BatchNodeBuilder).WithExecFuncAny$1(ctx, prepResult) (r, err)
+//@   widen [C01,C02,C04,C06,C07,C09,C17]
 //@   freevars (fn *func(context.Context, any) (any, error))
 //@   requires *fn != nil
 //@   havoc user
@@ -482,6 +538,7 @@ package flyt
 // An Any-style post observes the payload: the value, or the error result itself when exec produced an error result.
 //@ spec func anyView(r Result) any = r.err != nil ? box(r, Result) : r.value
 //@ func WithPostFuncAny$1$1(ctx, shared, prepResult, execResult) (a, err)
+//@   widen [C01,C02,C04,C06,C07,C09,C17]
 //@   freevars (fn *func(context.Context, *SharedStore, any, any) (Action, error))
 //@   requires *fn != nil
 //@   havoc user
@@ -492,6 +549,7 @@ package flyt
 //@     effect calls = 1; ua = act; ue = e
 //@   ensures [C17] calls == 1 && a == ua && err == ue
 //@ func (*NodeBuilder).WithPostFuncAny$1(ctx, shared, prepResult, execResult) (a, err)
+//@   widen [C01,C02,C04,C06,C07,C09,C17]
 //@   freevars (fn *func(context.Context, *SharedStore, any, any) (Action, error))
 //@   requires *fn != nil
 //@   havoc user
@@ -509,6 +567,7 @@ package flyt
 //@ guarded SharedStore.data by mu
 
 //@ func NewSharedStore() (s)
+//@   widen [C13,C15,C16]
 //@   ensures [C14] fresh(s) && fresh(s.data) && (forall k string :: !has(s.data, k)) && len(s.data) == 0
 
 //@ func (*SharedStore).Get(s, key) (val, ok)
@@ -517,6 +576,7 @@ package flyt
 //@   ensures [C13] sections == 1
 
 //@ func (*SharedStore).Set(s, key, value) ()
+//@   widen [C15,C16]
 //@   requires s != nil && s.data != nil
 //@   assigns [C14] contents(s.data)
 //@   ensures [C14] s.data == old(s.data) && dom(s.data) == upd(old(dom(s.data)), key, true)
@@ -961,8 +1021,9 @@ package flyt
 //@   ensures [C04] perr != nil ==> err != nil && Is(err, perr) && nPost == 0 && ph == 1
 //@   ensures [C04] nPost == 1 && postErr != nil ==> err != nil && Is(err, postErr)
 //@   ensures [C04,C06] err == nil <==> nPost == 1 && postErr == nil
-//@   ensures [C10,C18] (err == nil && act != "") || (err != nil && act == "")
-//@   ensures [C18] err == nil ==> act == norm(postAct)
+//@   ensures [C10,C18|C03] (err == nil && act != "") || (err != nil && act == "")
+//@   ensures [C18|C03,C10] err == nil ==> act == norm(postAct)
+//@   ensures [C11] perr == nil ==> nPost == 1 || (err != nil && Is(err, ctxErr(ctx)))
 
 
 // ---------------------------------------------------------------------------
@@ -987,6 +1048,7 @@ package flyt
 //@   ensures allocated(p.tasks) && allocated(p.done) && p.tasks != nil && p.done != nil && p.tasks != p.done && !closed(p.tasks) && !closed(p.done)
 
 //@ func (*WorkerPool).worker(p) ()
+//@   widen [C06,C07]
 //@   requires p != nil
 //@   havoc user
 //@   ghost pending bool = false; got func() = nil; ran int = 0
@@ -1002,6 +1064,7 @@ package flyt
 //@   ensures [C08] spawned == 0
 
 //@ func (*WorkerPool).Submit(p, task) ()
+//@   widen [C06,C07]
 //@   requires p != nil && task != nil && !closed(p.tasks)
 //@   havoc alloc
 //@   ghost nAdd int = 0; nSend int = 0
@@ -1016,6 +1079,7 @@ package flyt
 //@   ensures [C08,C12] spawned == 0 && callbacks == old(callbacks)
 
 //@ func (*WorkerPool).Submit$1() ()
+//@   widen [C06,C07]
 //@   freevars (p **WorkerPool, task *func())
 //@   requires *p != nil && *task != nil
 //@   havoc user
@@ -1029,6 +1093,7 @@ package flyt
 //@   ensures [C12] nCall == 1 && nDone == 1
 
 //@ func (*WorkerPool).Wait(p) ()
+//@   widen [C06,C07]
 //@   requires p != nil
 //@   joins
 //@   ghost nWait int = 0
@@ -1107,6 +1172,7 @@ package flyt
 //@   assigns n.*
 
 //@ func (*BatchNode).Prep(n, ctx, shared) (v, err)
+//@   widen [C01,C02,C04,C06,C07,C09,C17]
 //@   requires n != nil && n.CustomNode != nil && n.CustomNode.BaseNode != nil
 //@   havoc user
 //@   ghost calls int = 0; ur []Result = slice(0, 0, 0, 0); ue error = nil; dcalls int = 0; dv any = nil; de error = nil
@@ -1120,6 +1186,7 @@ package flyt
 //@   ensures [C04,C06] old(n.batchPrepFunc) == nil ==> calls == 0 && dcalls == 1 && v == dv && err == de
 
 //@ func (*BatchNode).Post(n, ctx, shared, prepResult, execResult) (a, err)
+//@   widen [C01,C02,C04,C06,C07,C09,C17]
 //@   requires n != nil
 //@   requires n.batchPostFunc != nil ==> isType(prepResult, []Result) && isType(execResult, []Result)
 //@   havoc user
@@ -1131,6 +1198,7 @@ package flyt
 //@   ensures [C06,C18] old(n.batchPostFunc) == nil ==> calls == 0 && a == DefaultAction && err == nil
 
 //@ func (*BatchNodeBuilder).Prep(b, ctx, shared) (v, err)
+//@   widen [C01,C02,C04,C06,C07,C09,C17]
 //@   requires b != nil && b.BatchNode != nil && b.BatchNode.CustomNode != nil && b.BatchNode.CustomNode.BaseNode != nil
 //@   havoc user
 //@   ghost calls int = 0; dv any = nil; de error = nil
@@ -1139,6 +1207,7 @@ package flyt
 //@     effect calls = 1; dv = rv; de = re
 //@   ensures [C04,C06] calls == 1 && v == dv && err == de
 //@ func (*BatchNodeBuilder).Exec(b, ctx, p) (v, err)
+//@   widen [C01,C02,C04,C06,C07,C09,C17]
 //@   requires b != nil && b.BatchNode != nil && b.BatchNode.CustomNode != nil && b.BatchNode.CustomNode.BaseNode != nil
 //@   havoc user
 //@   ghost calls int = 0; dv any = nil; de error = nil
@@ -1147,6 +1216,7 @@ package flyt
 //@     effect calls = 1; dv = rv; de = re
 //@   ensures [C06,C17] calls == 1 && v == dv && err == de
 //@ func (*BatchNodeBuilder).Post(b, ctx, shared, p, r) (a, err)
+//@   widen [C01,C02,C04,C06,C07,C09,C17]
 //@   requires b != nil && b.BatchNode != nil
 //@   requires b.BatchNode.batchPostFunc != nil ==> isType(p, []Result) && isType(r, []Result)
 //@   havoc user
@@ -1157,18 +1227,22 @@ package flyt
 //@   ensures [C04,C06] calls == 1 && a == da && err == de
 
 //@ func (*BatchNodeBuilder).WithPrepFunc(b, fn) (r)
+//@   widen [C17]
 //@   requires b != nil && b.BatchNode != nil
 //@   assigns [C19] b.BatchNode.batchPrepFunc
 //@   ensures [C19] r == b && b.BatchNode.batchPrepFunc == fn
 //@ func (*BatchNodeBuilder).WithPostFunc(b, fn) (r)
+//@   widen [C17]
 //@   requires b != nil && b.BatchNode != nil
 //@   assigns [C19] b.BatchNode.batchPostFunc
 //@   ensures [C19] r == b && b.BatchNode.batchPostFunc == fn
 //@ func (*BatchNodeBuilder).WithExecFunc(b, fn) (r)
+//@   widen [C17]
 //@   requires b != nil && b.BatchNode != nil && b.BatchNode.CustomNode != nil
 //@   assigns [C19] b.BatchNode.CustomNode.execFunc
 //@   ensures [C19] r == b && b.BatchNode.CustomNode.execFunc == fn
 //@ func (*BatchNodeBuilder).WithExecFuncAny(b, fn) (r)
+//@   widen [C17]
 //@   requires b != nil && b.BatchNode != nil && b.BatchNode.CustomNode != nil
 //@   assigns [C19] b.BatchNode.CustomNode.execFunc
 //@   havoc alloc
@@ -1177,6 +1251,7 @@ package flyt
 // Constructors: a fresh node with default base configuration; base options are applied first, in the order
 // they were collected, each exactly once to the new node's BaseNode; then the custom options, likewise.
 //@ func NewNode(opts) (r)
+//@   widen [C17]
 //@   requires forall j int :: 0 <= j && j < len(opts) && isType(opts[j], func(*BaseNode)) ==> opts[j].(func(*BaseNode)) != nil
 //@   requires forall j int :: 0 <= j && j < len(opts) && isType(opts[j], NodeOption) ==> opts[j].(NodeOption) != nil
 //@   havoc user
@@ -1232,6 +1307,7 @@ package flyt
 //@ spec func isBaseOpt(x any) bool = isType(x, NodeOption) || isType(x, func(*BaseNode))
 //@ spec func asBaseOpt(x any) NodeOption = isType(x, NodeOption) ? x.(NodeOption) : x.(func(*BaseNode))
 //@ func NewBatchNode(opts) (r)
+//@   widen [C17]
 //@   requires forall j int :: 0 <= j && j < len(opts) && isType(opts[j], func(*BaseNode)) ==> opts[j].(func(*BaseNode)) != nil
 //@   requires forall j int :: 0 <= j && j < len(opts) && isType(opts[j], NodeOption) ==> opts[j].(NodeOption) != nil
 //@   havoc user
